@@ -18,6 +18,7 @@ import (
 	"fmt"
 	"math/big"
 	"strings"
+	"sync"
 	"time"
 
 	dkg "github.com/DOSNetwork/core/share/dkg/pedersen"
@@ -159,6 +160,49 @@ func execLib(w []string) (res h.Result) {
 	return
 }
 
+// netRun: the network double and the n pdkg instances of a `net` case with their Loops running since t0.
+type netRun struct {
+	ids [][]byte
+	nw  *dkgnet.Net
+	pd  []dkg.PDKGInterface
+	t0  time.Time
+}
+
+var (
+	warmMu sync.Mutex
+	warm   = map[string]*netRun{}
+)
+
+func startNetRun(seed uint64, n int) *netRun {
+	dkgnet.InitLog()
+	dkgnet.Quiet()
+	nr := &netRun{}
+	for k := 0; k < n; k++ {
+		nr.ids = append(nr.ids, []byte(fmt.Sprintf("member-%02d-%016x", k, seed)))
+	}
+	nr.nw = dkgnet.NewNet(nr.ids)
+	nr.pd = make([]dkg.PDKGInterface, n)
+	for k := 0; k < n; k++ {
+		nr.pd[k] = dkg.NewPDKG(nr.nw.Node(k, nr.ids), dkgnet.Suite)
+		go nr.pd[k].Loop()
+	}
+	nr.t0 = time.Now()
+	return nr
+}
+
+// prewarmNet starts the Loops of a `net` case NOW, although the case is executed later: pdkg.Loop's watchdog is a
+// free-running one-minute ticker created inside Loop (no hook can reach it), so a case in which a tick falls between
+// the arrival of the peers' messages and the local Grouping call needs Loops that are a minute old. The generator
+// pre-warms such a case when it starts and emits it last; the other cases run in the meantime. A replay of the line
+// on its own (`corr exec`, --replay) finds nothing pre-warmed and simply waits out the skews.
+func prewarmNet(line string) {
+	w := strings.Fields(line)
+	nr := startNetRun(h.BigDec(w[1]).Uint64(), h.Atoi(w[2]))
+	warmMu.Lock()
+	warm[strings.Join(w, " ")] = nr
+	warmMu.Unlock()
+}
+
 // Level 2: real pdkg (Loop + Grouping pipeline) of n members over the in-memory network double.
 //
 //	net <seed> <n> <timeoutMs> <ackMs> <skewMs,...> <rule;rule;...|->
@@ -205,11 +249,16 @@ func execNet(w []string) (res h.Result) {
 			rules = append(rules, r)
 		}
 	}
-	var ids [][]byte
-	for k := 0; k < n; k++ {
-		ids = append(ids, []byte(fmt.Sprintf("member-%02d-%016x", k, seed)))
+	// the Loops of a pre-warmed case (see prewarmNet) have been running since the generator started
+	key := strings.Join(w, " ")
+	warmMu.Lock()
+	nr := warm[key]
+	delete(warm, key)
+	warmMu.Unlock()
+	if nr == nil {
+		nr = startNetRun(seed, n)
 	}
-	nw := dkgnet.NewNet(ids)
+	ids, nw, pd, t0 := nr.ids, nr.nw, nr.pd, nr.t0
 	nw.AckWait = ack
 	nw.Policy = func(from, to int, kind string, attempt int) dkgnet.Action {
 		for _, r := range rules {
@@ -219,14 +268,9 @@ func execNet(w []string) (res h.Result) {
 		}
 		return dkgnet.Action{}
 	}
-	ctx, cancel := context.WithTimeout(context.Background(), timeout)
+	ctx, cancel := context.WithDeadline(context.Background(), t0.Add(timeout))
 	defer cancel()
 	sid := fmt.Sprintf("%x", seed|1)
-	pd := make([]dkg.PDKGInterface, n)
-	for k := 0; k < n; k++ {
-		pd[k] = dkg.NewPDKG(nw.Node(k, ids), dkgnet.Suite)
-		go pd[k].Loop()
-	}
 	type result struct {
 		k   int
 		ok  bool
@@ -240,7 +284,7 @@ func execNet(w []string) (res h.Result) {
 				sk = skews[k]
 			}
 			select {
-			case <-time.After(time.Duration(sk) * time.Millisecond):
+			case <-time.After(time.Until(t0.Add(time.Duration(sk) * time.Millisecond))): // skews count from the start of the Loops
 			case <-ctx.Done():
 				resc <- result{k, false, "timeout-before-start"}
 				return
@@ -324,7 +368,17 @@ func execNet(w []string) (res h.Result) {
 			}
 		}
 		sig := "stall-other"
+		crossesTick := false
+		for _, a := range skews {
+			for _, b := range skews {
+				if a < 60000 && b >= 60000 {
+					crossesTick = true // somebody's messages arrived before the first watchdog tick, somebody started after it
+				}
+			}
+		}
 		switch {
+		case crossesTick:
+			sig = "stall-after-watchdog-tick"
 		case dupResp:
 			sig = "stall-redelivered-responses"
 		case earlyResp:
@@ -503,6 +557,24 @@ func scheduleFor(n, i int, order []string) string {
 }
 
 func gen(tier string, rng *h.Rng, emit func(string)) {
+	// the tick-crossing cases (round 5, review C finding 4 / seed C04f-watchdog): Loops started now, cases emitted last.
+	// Members 0 and 1 call Grouping 57 s after their Loops started, their PublicKey messages are acknowledged and
+	// buffered by member 2, whose Loop has no request registered for the session yet; the watchdog of every Loop
+	// ticks at 60 s; member 2 calls Grouping at 61.5 s. A tick must not touch the buffer of a session that can still
+	// start (as the code is: expire ranges over the registered requests only).
+	tickSeed := rng.U64() >> 1
+	ticks := []string{fmt.Sprintf("net %d 3 80000 1500 57000,57000,61500 -", tickSeed)}
+	if tier == "thorough" {
+		ticks = append(ticks, fmt.Sprintf("net %d 4 80000 1500 57500,61500,57000,58000 *>1:pk:0=loseack", tickSeed+2))
+	}
+	for _, l := range ticks {
+		prewarmNet(l)
+	}
+	defer func() {
+		for _, l := range ticks {
+			emit(l)
+		}
+	}()
 	thorough := tier == "thorough"
 	seed := func() uint64 { return rng.U64() >> 1 }
 	// 0. canonical runs
